@@ -158,13 +158,14 @@ def run(chk):
     chk.rule = ("valid blocks of all nine types: the model's free encoder writes the block with four junk patterns "
                 "(0xFF, 0x81, two position-dependent) in every don't-care position (reserved words, pads, the 256-byte "
                 "calibration pad, string tails); the library must decode each to the same fields as the zero-junk "
-                "encoding and re-encode to identical bytes of the same size; then every run of don't-care bytes filled with content that looks like something (the rest of a UTF-16 string, another NUL-terminated text, a second NUL then text, spaces, a BOM), also on blocks whose strings hold 0-3 characters; same for the 8 capture blocks with their "
+                "encoding and re-encode to identical bytes of the same size; then every run of don't-care bytes filled with content that looks like something (the rest of a UTF-16 string, another NUL-terminated text, a second NUL then text, spaces, a BOM), also on blocks whose strings hold 0-3 characters and on blocks with hundreds of items / segments; same for the 8 capture blocks with their "
                 "don't-care positions (computed by the model) re-assigned; header/entries via the container module; "
                 "non-trivial = more than 8 don't-care bytes")
     check_cases(chk, codec.load_corpus("C12"))
     n = 700 if chk.tier == "quick" else 12000
     check_cases(chk, codec.gen_cases(chk, n, "C12"))
     check_cases(chk, short_text_cases(chk))
+    check_cases(chk, codec.large_count_cases(chk))           # e.g. one track with 310 segments: every per-track pad word
     check_capture(chk)
     check_container(chk)
 
